@@ -253,11 +253,11 @@ def join_aux(source_name, source_key, source_delete,  # noqa: C901
             if mode == 'full-outer':
                 for key, value in db_keys_usage.items():
                     if value is False:
-                        extra = create_extra_by_key(key)
+                        extra = create_extra_by_key(key, with_key=True)
                         yield extra
 
     # Creates extra by key
-    def create_extra_by_key(key):
+    def create_extra_by_key(key, with_key=False):
         extra = db.get(key)
         key = extra.pop('__key__', None)
         extra = dict(
@@ -265,9 +265,10 @@ def join_aux(source_name, source_key, source_delete,  # noqa: C901
             for k, v in extra.items()
             if k in fields
         )
-        if key:
+        if key and with_key:
             for k, v in zip(target_key.key_list, key):
-                extra[k] = v
+                if k != '#':
+                    extra[k] = v
         return extra
 
     # Yields the new resources
